@@ -337,7 +337,9 @@ class W1World(World):
             props = self.gen_props(rng, maxn=3)
             if rng.random() < 0.2:
                 props['Class'] = rng.choice(CLASSES)
-            s.update(n=self.pick_node(rng, g), props=props)
+            order = sorted(props)
+            rng.shuffle(order)          # the recorded step sorts dict keys; the call order of the keys is kept here
+            s.update(n=self.pick_node(rng, g), props=props, order=order)
         elif op == 'unset_node_property':
             n = self.pick_node(rng, g)
             have = sorted(m.nodes.get((g, n), {}).keys())
@@ -361,7 +363,9 @@ class W1World(World):
                     props['I0'] = adv_int(rng)
                 if rng.random() < 0.15:
                     props['Class'] = rng.choice(RELS)
-                s.update(props=props)
+                order = sorted(props)
+                rng.shuffle(order)
+                s.update(props=props, order=order)
             else:
                 name = rng.choice(['P0', 'I0', 'P1', 'Class'])
                 s.update(name=name)
@@ -397,6 +401,11 @@ class W1World(World):
                 s['op'] = 'graph_exists'
             else:
                 h = rng.choice(others)
+                # merging several nodes of the same other graph (as a combined-model merge does) is the interesting case
+                linked = sorted(set(y[0] for ek in m.edges if any(x[0] == g for x in ek) for y in ek if y[0] != g))
+                linked = [x for x in linked if x in others]
+                if linked and rng.random() < 0.6:
+                    h = rng.choice(linked)
                 s.update(h=h)
                 if op == 'merge_nodes':
                     common = sorted(set(k[1] for k in m.gnodes(g)) & set(k[1] for k in m.gnodes(h)))
@@ -479,9 +488,14 @@ class W1World(World):
                 s['op'] = 'graph_exists'
             else:
                 self.extra += 1
-                s.update(fmt=rng.choice(FMTS), entry=rng.choice(ENTRIES), cross=rng.random() < 0.4,
-                         new='G-%s-r%d' % (s['actor'], self.extra))
-                self.client_graphs[client].append(s['new'])
+                new = 'G-%s-r%d' % (s['actor'], self.extra)
+                # sometimes an id the store has seen before and that holds nothing now (deleted, or only probed)
+                empties = [x for x in self.client_graphs[client] if not m.gnodes(x) and x != g]
+                if empties and rng.random() < 0.35:
+                    new = rng.choice(empties)
+                s.update(fmt=rng.choice(FMTS), entry=rng.choice(ENTRIES), cross=rng.random() < 0.4, new=new)
+                if new not in self.client_graphs[client]:
+                    self.client_graphs[client].append(new)
         elif op in QUERY_OPS:
             queries.gen_query(self, rng, s, g)
         elif op == 'crash_enum':
@@ -588,6 +602,45 @@ class W1World(World):
     def graph_ids(state):
         return sorted(set(k.split('|', 1)[0] for k in state['nodes']))
 
+    def observe_plan(self, s):
+        """reads about OTHER graphs, aimed at the ids and classes this step mentions (public API only)"""
+        op = s['op']
+        if op in READ_OPS or op in QUERY_OPS or op in ('crash_enum',):
+            return []
+        addressed = {s.get('g'), s.get('new'), s.get('h')}
+        others = [g for g in sorted(set(k[0] for k in self.model.nodes)) if g not in addressed][:2]
+        if not others:
+            return []
+        pairs = []
+        if s.get('n') is not None and s.get('label'):
+            pairs.append((s['n'], s['label']))
+        for _, p in (s.get('desc') or {}).get('nodes', [])[:3]:
+            if p.get(NODE_ID) and p.get(CLASS):
+                pairs.append((p[NODE_ID], p[CLASS]))
+        if s.get('n') is not None and not s.get('label'):
+            pairs.append((s['n'], 'NetworkNode'))
+        return [(h, pairs[:3]) for h in others]
+
+    def observe(self, plan):
+        out = {}
+        for h, pairs in plan:
+            for b in BACKENDS:
+                pg = self.pg(b, h)
+                try:
+                    out[(b, h, 'list_all_node_ids')] = sorted(pg.list_all_node_ids())
+                except Exception as e:
+                    out[(b, h, 'list_all_node_ids')] = 'exc:' + type(e).__name__
+                for nid, label in pairs:
+                    try:
+                        out[(b, h, 'node_exists', nid, label)] = pg.node_exists(node_id=nid, label=label)
+                    except Exception as e:
+                        out[(b, h, 'node_exists', nid, label)] = 'exc:' + type(e).__name__
+                    try:
+                        out[(b, h, 'get_node_properties', nid)] = canon(norm(pg.get_node_properties(node_id=nid)))
+                    except Exception as e:
+                        out[(b, h, 'get_node_properties', nid)] = 'exc:' + type(e).__name__
+        return out
+
     def diff_detail(self, a, b, na='real', nb='expected'):
         out = []
         for part in ('nodes', 'edges'):
@@ -615,8 +668,20 @@ class W1World(World):
                 raise HarnessError('unknown op %s' % op)
         pre = {b: self.real_state(b) for b in BACKENDS}
         self.pending = []    # state read may flag; those belong to the previous step and were raised there
+        probes = self.observe_plan(s)
+        obs_pre = self.observe(probes)
         targets, outcome = fn(s)
         post = {b: self.real_state(b) for b in BACKENDS}
+        if probes:
+            obs_post = self.observe(probes)
+            for k in sorted(obs_pre):
+                if k[1] in targets:
+                    continue
+                if obs_pre[k] != obs_post.get(k):
+                    self.flag('C04', 'observable_other_graphs', {'store': k[0], 'op': op, 'read': k[2]},
+                              'op %s on %s changed what the API reports about graph %s in the %s store: %s%s was %s, is %s' %
+                              (op, s.get('g'), k[1], k[0], k[2], list(k[3:]), obs_pre[k], obs_post.get(k)))
+                    break
         mstate = self.model.abstract()
         # ---- C04: frame condition on every graph the operation did not address
         if True:
@@ -726,7 +791,8 @@ class W1World(World):
     def do_update_node_properties(self, s):
         g = s['g']
         self.touch(g)
-        o = self.three_way(s, lambda b: self.pg(b, g).update_node_properties(node_id=s['n'], props=dict(s['props'])),
+        od = lambda: {k: s['props'][k] for k in (s.get('order') or sorted(s['props'])) if k in s['props']}
+        o = self.three_way(s, lambda b: self.pg(b, g).update_node_properties(node_id=s['n'], props=od()),
                            lambda: self.model.update_node_properties(g, s['n'], s['props']), True)
         return {g}, o
 
@@ -764,8 +830,9 @@ class W1World(World):
     def do_update_link_properties(self, s):
         g = s['g']
         self.touch(g)
+        od = lambda: {k: s['props'][k] for k in (s.get('order') or sorted(s['props'])) if k in s['props']}
         o = self.three_way(s, lambda b: self.pg(b, g).update_link_properties(node_a=s['a'], node_b=s['b'],
-                                                                               kind=s['kind'], props=dict(s['props'])),
+                                                                               kind=s['kind'], props=od()),
                            lambda: self.model.update_link_properties(g, s['a'], s['b'], s['kind'], s['props']), True)
         return {g}, o
 
